@@ -56,8 +56,11 @@ enum LeafKind {
     /// execute: state created lazily through the entry API (`entry::<Lz>().or_default()`), then counted up: it is
     /// created in the scope the leaf runs in - and gone with it - unless an enclosing scope already holds it
     Lazy,
+    /// execute: removes marker 0 from the innermost scope holding it (if any): a scope entered afterwards whose body
+    /// requires the marker must stop at its requirement check, every time it is entered
+    Drop0,
 }
-const KINDS: [LeafKind; 8] = [LeafKind::Plain, LeafKind::Create0, LeafKind::Require0, LeafKind::Bump, LeafKind::Shadow, LeafKind::Create1, LeafKind::Require1, LeafKind::Lazy];
+const KINDS: [LeafKind; 9] = [LeafKind::Plain, LeafKind::Create0, LeafKind::Require0, LeafKind::Bump, LeafKind::Shadow, LeafKind::Create1, LeafKind::Require1, LeafKind::Lazy, LeafKind::Drop0];
 
 type Ev = (Phase, u32);
 
@@ -144,6 +147,9 @@ impl Component<TagP> for Probe {
         }
         if self.kind == LeafKind::Lazy {
             state.entry::<Lz>().or_default().0 += 1;
+        }
+        if self.kind == LeafKind::Drop0 {
+            let _ = state.remove::<Mk0>();
         }
         Ok(())
     }
@@ -524,6 +530,11 @@ impl<'a> Interp<'a> {
                     if *kind == LeafKind::Bump {
                         *self.innermost(K::Cnt).expect("caller provides Cnt") += 1;
                     }
+                    if *kind == LeafKind::Drop0 {
+                        if let Some(m) = self.st.iter_mut().rev().find(|m| m.contains_key(&K::Mk0)) {
+                            m.remove(&K::Mk0);
+                        }
+                    }
                     if *kind == LeafKind::Lazy {
                         match self.innermost(K::Lz) {
                             Some(v) => *v += 1,
@@ -745,7 +756,10 @@ fn run_case(p: &Prepared, scripts: &[Vec<bool>], fault: Option<Fault>, use_dsl: 
     if got_m0 != m.get(&K::Mk0).copied() || got_m1 != m.get(&K::Mk1).copied() {
         return Some((format!("state:{failed}:marker-visibility-wrong"), format!("({how}) markers {got_m0:?}/{got_m1:?}, reference {:?}/{:?} (state created inside a scope must be gone, outside must persist)", m.get(&K::Mk0), m.get(&K::Mk1))));
     }
-    if !p.loops_in_some_scope_twice {
+    // loops at the same scope level share one counter (each `Loop::init` inserts it anew, every completed pass of any of
+    // them counts it up): the reference interpreter does exactly that
+    let _ = p.loops_in_some_scope_twice;
+    {
         let got_it = state.try_get_value::<Iterations>().ok();
         if got_it != m.get(&K::Iter).copied() {
             return Some((format!("state:{failed}:iterations-wrong"), format!("({how}) Iterations = {got_it:?}, reference {:?}", m.get(&K::Iter))));
@@ -887,7 +901,7 @@ fn random_shape(rng: &mut SplitMix64, budget: &mut usize, depth: usize) -> Vec<I
 
 fn main() {
     let rep = Reporter::from_args("C03");
-    rep.rule("configurations over {probe leaf (8 kinds: state created lazily through the entry API in execute, plain, create marker in init, require marker, bump outer counter - through try_borrow_value_mut or through the entry API, shadow the caller's sentinel), sequence, while, if, if/else, scope; the scripted condition of a node plain or wrapped as !!c, c & traced-true-operand, c | traced-false-operand (constructors and operators), every operand traced and fault-injectable: all operands initialised, required and evaluated on every test, no short-circuit} built with the builder DSL and with Block/Loop/Branch/Scope::new, run with Configuration::run on a caller state holding sentinels; scripted condition outcomes (all sequences up to length 3 per condition) and every single fault point (node x phase x 1st/2nd call); the recorded (phase,node) trace, the returned result and the caller's final state are compared with a reference interpreter written from the statement. Exhaustive over all trees up to the stated node count; plus seeded random trees up to 40 nodes, depth <= 7. distinct_nontrivial = distinct (tree, scripts, fault) cases that failed, entered a scope, or had a zero-iteration loop");
+    rep.rule("configurations over {probe leaf (9 kinds: remove a marker in execute, state created lazily through the entry API in execute, plain, create marker in init, require marker, bump outer counter - through try_borrow_value_mut or through the entry API, shadow the caller's sentinel), sequence, while, if, if/else, scope; the scripted condition of a node plain or wrapped as !!c, c & traced-true-operand, c | traced-false-operand (constructors and operators), every operand traced and fault-injectable: all operands initialised, required and evaluated on every test, no short-circuit} built with the builder DSL and with Block/Loop/Branch/Scope::new, run with Configuration::run on a caller state holding sentinels; scripted condition outcomes (all sequences up to length 3 per condition) and every single fault point (node x phase x 1st/2nd call); the recorded (phase,node) trace, the returned result and the caller's final state are compared with a reference interpreter written from the statement. Exhaustive over all trees up to the stated node count; plus seeded random trees up to 40 nodes, depth <= 7. distinct_nontrivial = distinct (tree, scripts, fault) cases that failed, entered a scope, or had a zero-iteration loop");
     rep.assume("Script conditions keep their position harness-side and reset it in init(); Iterations is only compared when no scope level holds two loops");
     let max_nodes = rep.tier.pick(3usize, 4usize);
     rep.set("exhaustive_max_nodes", json!(max_nodes));
@@ -934,7 +948,7 @@ fn main() {
                 for _ in range {
                     let mut budget = 4 + rng.usize(37);
                     let shape = random_shape(&mut rng, &mut budget, 0);
-                    let kinds: Vec<LeafKind> = (0..8).map(|_| *rng.pick(&KINDS)).collect();
+                    let kinds: Vec<LeafKind> = (0..9).map(|_| *rng.pick(&KINDS)).collect();
                     let p = prepare(&shape, 0, Some(kinds));
                     let sets = script_sets_for(p.n_conds, all, &mut rng, 3);
                     // sample faults instead of all of them for big trees
